@@ -39,7 +39,7 @@ ESSENTIAL = {
     "C03_negotiation": ["expect-success", "resumable-state", "dev-unexpected", "dev-malformed", "dev-close", "websocket", "client-write-fault"],
     "C04_tls": ["expect-auth-inside-tls", "reconnect", "cert-wronghost", "cert-expired"],
     "C05_inbound": ["segmented", "stanza>4KB", "client-ws-sm-on", "component-tcp-sm-off", "feed-glued-to-last-negotiation-reply"],
-    "C06_router": ["several-routes-accept", "no-route-accepts", "unhandled-iq-request", "first-match-not-first-route", "response-to-pending-request"],
+    "C06_router": ["several-routes-accept", "no-route-accepts", "unhandled-iq-request", "first-match-not-first-route", "response-to-pending-request", "router-used-before"],
     "C07_iqresult": ["parked-at-yield-point", "duplicate-response", "cancellation"],
     "C07_stress": ["racing-cancellation", "abandoned-receiver"],
     "C08_send": ["concurrent", "send-after-disconnect", "client-ws", "client-tls", "component-tcp"],
@@ -50,11 +50,11 @@ ESSENTIAL = {
     "C13_streammanager": ["server-down", "failing-attempts", "end-streamclose", "end-reset", "end-streamerror", "permanent-error", "stop-while-reconnecting", "short-keepalive", "starttls"],
     "C14_sasl": ["no-common-mechanism", "list-changes-across-starttls", "reconnection-with-other-list", "reply-failure", "auth-write-fault"],
     "C15_jid": ["must-reject", "must-accept", "domain-with-resource", "resource-with-slash-or-at"],
-    "C16_component": ["id-or-secret-needs-escaping", "reply-stream-error", "reply-unexpected"],
+    "C16_component": ["id-or-secret-needs-escaping", "reply-stream-error", "reply-unexpected", "reconnection"],
     "C17_fifo": ["pop-after-empty-and-refill", "mixed-peek-pop", "push-of-held-entry", "caller-changes-own-entry"],
-    "C18_keepalive": ["ping-failure", "session-end", "end-to-end", "over-starttls", "slow-disconnected-handler", "over-websocket"],
+    "C18_keepalive": ["ping-failure", "session-end", "end-to-end", "over-starttls", "slow-disconnected-handler", "over-websocket", "after-disconnect-in-flight"],
     "C19_backoff": ["overflowing-attempt", "reset", "jitter", "no-jitter"],
-    "C20_address": ["ipv6", "explicit-port", "ws", "wss"],
+    "C20_address": ["ipv6", "explicit-port", "ws", "wss", "ws-unusual-host"],
 }
 
 NOT_APPLICABLE = {}
